@@ -106,7 +106,31 @@ fn run_resolve(case: &Value) -> Value {
     json!({"id": case["id"], "results": res})
 }
 
+fn run_checksum512(case: &Value) -> Value {
+    let s = string_of(&case["s"]);
+    match s.parse::<Checksum<sha2::Sha512>>() {
+        Ok(c) => {
+            let shown = toml::Value::try_from(&c).ok().and_then(|v| v.as_str().map(str::to_string));
+            let reparsed = shown.as_ref().and_then(|t| t.parse::<Checksum<sha2::Sha512>>().ok()).map(|c2| c2 == c);
+            json!({"id": case["id"], "ok": true, "name": json_bytes(c.name.as_bytes()), "value": json_bytes(&c.value),
+                   "shown": shown.map(|t| json_bytes(t.as_bytes())), "reparse_eq": reparsed})
+        }
+        Err(e) => {
+            let k = match e {
+                ChecksumParseError::MissingPrefix => "missing_prefix",
+                ChecksumParseError::IncompatiblePrefix(_) => "incompatible_prefix",
+                ChecksumParseError::InvalidValue(_) => "invalid_value",
+                ChecksumParseError::InvalidChecksumLength(_) => "invalid_length",
+            };
+            json!({"id": case["id"], "ok": false, "err": k})
+        }
+    }
+}
+
 fn run_checksum(case: &Value) -> Value {
+    if case["alg"] == 512 {
+        return run_checksum512(case);
+    }
     let s = string_of(&case["s"]);
     match s.parse::<Checksum<Sha256>>() {
         Ok(c) => {
